@@ -286,6 +286,9 @@ ARG_KINDS = {
     "dbg_tuple": ("[(1, 2), (3, 4)]", "(i32, i32)", ["(1, 2)", "(3, 4)"], 'format!("{:?}", x)'),
     "bools": ("[true, false]", "bool", ["true", "false"], "x.to_string()"),
     "u128s": ("[u128::MAX, 0, 18446744073709551616]", "u128", [str(2 ** 128 - 1), "0", str(2 ** 64)], "x.to_string()"),
+    # different strings that start at the same address (prefixes of one buffer)
+    "prefix_strs": ("[&crate::TEXT[..1], &crate::TEXT[..2], &crate::TEXT[..4], &crate::TEXT[..3]]", "&str", ["a", "ab", "abcd", "abc"], "x.to_string()"),
+    "prefix_cows": ("vec![std::borrow::Cow::Borrowed(&crate::TEXT[..2]), std::borrow::Cow::Borrowed(&crate::TEXT[..1])]", "&str", ["ab", "a"], "x.to_string()"),
     "one": ("[7]", "u8", ["7"], "x.to_string()"),
     "empty": ("[]", "u8", [], "x.to_string()"),
 }
@@ -310,6 +313,7 @@ static ALLOC: divan::AllocProfiler = divan::AllocProfiler::system();
 
 pub const ARGS_U64: &[u64] = &[10, 9, 100];
 pub static STRS: &[&str] = &["p", "q", "o"];
+pub static TEXT: &str = "abcdefgh";
 pub const CONSTS1: [usize; 1] = [5];
 pub const CONSTS3: [usize; 3] = [3, 1, 2];
 pub const CONSTS20: [usize; 20] = [20, 19, 18, 17, 16, 15, 14, 13, 12, 11, 10, 9, 8, 7, 6, 5, 4, 3, 2, 1];
@@ -500,6 +504,8 @@ def family_forms(m, tier):
         dict(raw_name="a_static_strs", args="static_strs"),
         dict(raw_name="a_empty", args="empty"),
         dict(raw_name="a_weird_strs", args="weird_strs"),
+        dict(raw_name="a_prefix_strs", args="prefix_strs"),
+        dict(raw_name="a_prefix_cows", args="prefix_cows", form="bencher"),
         dict(raw_name="a_dbg_tuple", args="dbg_tuple", form="bencher"),
         dict(raw_name="a_bools", args="bools"),
         dict(raw_name="a_u128s", args="u128s"),
